@@ -7,7 +7,8 @@ import vcommon
 IMPORTS = ["Base", "Harness", "Check_C13"]
 CHECK_FN = "check_C13"
 RULE = ("each generated input (snps: reference + alignment, both gap modes; variants: annotated genome + msa, GenBank or "
-        "GFF, --append-snps on/off, optional window) is run in per-sequence mode and in --aggregate mode with thresholds "
+        "GFF, --append-snps on/off, optional window; in 40% of them several sequences carry the same amino-acid change "
+        "through different codons) is run in per-sequence mode and in --aggregate mode with thresholds "
         "0, 1, an occurring frequency printed to full precision, and one just above it; the oracle recounts from the "
         "implementation's own per-sequence output: each distinct mutation once, frequency = count / number of query "
         "sequences to 9 decimals, kept iff frequency >= threshold, non-decreasing genomic position; the Coq model of both "
@@ -22,6 +23,41 @@ def snps_case(cid, hard, thr, ref, aln, meta):
             "coq": lambda obs: "(CSnps (%s, (%d, %d%%Z, (%d)%%Z), %s, %s, %s))" % (cm.cbool(hard), k, m, e, cm.cbytes(ref), cm.cbytes(aln), cm.cgores(obs)),
             "meta": meta, "sample": {"cmd": "snps --aggregate", "hard_gaps": hard, "threshold": thr, "reference": ref.decode(), "alignment": aln.decode()},
             "info": {}}
+
+
+def same_aa_by_different_codons(rng, genome, feats, ref_row, rows):
+    """Rewrite one codon of a feature in >= 2 rows so that the rows carry the SAME amino-acid change through DIFFERENT
+    nucleotide changes (e.g. S -> L by TTA in one row and CTG in another): one aggregated aa mutation, several SNP sets."""
+    import itertools
+    col = [i for i, c in enumerate(ref_row) if c != "-"]
+    rows = [list(r) for r in rows]
+    for f in rng.sample(feats, len(feats)):
+        ps = f.positions()
+        ncod = len(ps) // 3
+        for ci in rng.sample(range(ncod), ncod):
+            trip = ps[3 * ci:3 * ci + 3]
+            cod = "".join(genome[p - 1] for p in trip)
+            if f.strand == "-":
+                cod = "".join(anno.COMP[c] for c in cod)
+            ra = anno.translate_codon(cod)
+            groups = {}
+            for alt in ("".join(t) for t in itertools.product("ACGT", repeat=3)):
+                a = anno.translate_codon(alt)
+                if alt != cod and a != ra:
+                    groups.setdefault(a, []).append(alt)
+            cands = [v for v in groups.values() if len(v) >= 2]
+            if not cands:
+                continue
+            alts = rng.choice(cands)
+            rng.shuffle(alts)
+            for k, row in enumerate(rows):
+                alt = alts[k % min(len(alts), 3)]
+                if f.strand == "-":
+                    alt = "".join(anno.COMP[c] for c in alt)
+                for p, ch in zip(trip, alt):
+                    row[col[p - 1]] = ch
+            return ["".join(r) for r in rows]
+    return ["".join(r) for r in rows]
 
 
 def generate(ctx):
@@ -70,6 +106,8 @@ def generate(ctx):
             rows = [rng.choice(protos) for _ in rows]
         else:
             rows = [rows[0] if rng.random() < 0.4 else r for r in rows]
+        if rng.random() < 0.4:
+            rows = same_aa_by_different_codons(rng, genome, feats, ref_row, rows)
         msa, recs = vcommon.build_msa(rng, ref_row, rows, refpos=rng.choice(["first", "middle"]))
         annob = anno.render_genbank(genome, feats, rng) if suffix == "gb" else anno.render_gff(genome, feats)
         append = rng.random() < 0.5
